@@ -256,6 +256,24 @@ func (s *Syncer[H]) findTailHeight(ctx context.Context, oldTail, head H) (uint64
 	// the estimation can be off in both directions if headers are not spaced by block time,
 	// so keep it within the stored chain: never below the current tail and never above the head
 	newTailHeight := min(max(estimatedTailHeight, oldTail.Height()), max(s.store.Height(), oldTail.Height()))
+	for newTailHeight > oldTail.Height() {
+		// the estimation overshoots whenever headers are denser than block time, so walk back
+		// for as long as the preceding header is still within the pruning window
+		prev, err := s.store.GetByHeight(ctx, newTailHeight-1)
+		if err != nil {
+			return 0, fmt.Errorf(
+				"getting header before estimated new tail(%d) from store: %w",
+				estimatedTailHeight,
+				err,
+			)
+		}
+
+		if expectedTailTime.Compare(prev.Time().UTC()) > 0 {
+			break
+		}
+
+		newTailHeight--
+	}
 	for newTailHeight < s.store.Height() {
 		// store keeps all the headers up to the current head
 		// iterate over the headers and find the most accurate tail
